@@ -99,12 +99,20 @@ fn unescape(literal: &str) -> Result<Text, Text> {
                     None
                 }
                 EscapeState::UnicodeEscape3(d1, d2, d3) if c.is_ascii_hexdigit() => {
-                    let uc: char = char::try_from(
+                    match char::try_from(
                         (*d1 << 12) | (*d2 << 8) | (*d3 << 4) | c.to_digit(16).unwrap(),
-                    )
-                    .unwrap();
-                    *state = EscapeState::None;
-                    Some(uc)
+                    ) {
+                        Ok(uc) => {
+                            *state = EscapeState::None;
+                            Some(uc)
+                        }
+                        Err(_) => {
+                            // A surrogate is not a character.
+                            *state = EscapeState::Failed;
+                            failed = true;
+                            None
+                        }
+                    }
                 }
                 EscapeState::Failed => None,
                 _ => {
